@@ -28,6 +28,19 @@ func (g *gen) exprDepth() int { return 1 + g.intn(g.f.MaxDepth, "ed") }
 // assignable returns a writable reference of any type, with its type.
 func (g *gen) assignTarget(want func(*Type) bool) Expr {
 	cands := g.pathsTo(g.writableRoots(), func(t *Type) bool { return noAtomic(t) && t.K != TPtr && want(t) })
+	// Known finding (tag storage-store.array-of-array, HLSL): storing a value that
+	// contains an array of arrays to a storage buffer declares the temporary as
+	// "T[M] _valueN[K]", which is not an HLSL declarator.
+	if len(cands) > 0 && g.f.off("storage-store.array-of-array") {
+		keep := cands[:0]
+		for _, c := range cands {
+			if rv := RootVar(c.root); rv != nil && rv.Kind == VStorage && hasArrayOfArray(c.t) {
+				continue
+			}
+			keep = append(keep, c)
+		}
+		cands = keep
+	}
 	if len(cands) == 0 {
 		return nil
 	}
@@ -120,6 +133,10 @@ func (g *gen) declStmt() Stmt {
 		g.class("stmt:let")
 		v.Init = g.expr(t, g.exprDepth())
 		v.NoType = g.chance(40, "lnotype")
+		if t.K != TScalar && IsRef(v.Init) && g.f.off("let.ref-snapshot") {
+			// finding C01-14: `let l = v;` of a composite is re-read from v at every later `l.x` / `l[i]`
+			v.Kind = VVar
+		}
 	}
 	g.declare(v)
 	return &DeclStmt{V: v}
@@ -409,7 +426,8 @@ func (g *gen) atomicStmt() []Stmt {
 	if len(cands) == 0 {
 		return nil
 	}
-	c := cands[g.intn(len(cands), "atc")]
+	ci := g.intn(len(cands), "atc")
+	c := cands[ci]
 	ref := g.buildPath(c, 1, true)
 	k := c.t.S
 	ptr := &AddrOf{X: ref, Space: "storage"}
@@ -418,6 +436,17 @@ func (g *gen) atomicStmt() []Stmt {
 		ops = append(ops, "atomicExchange", "atomicStore", "atomicLoad")
 	}
 	op := ops[g.intn(len(ops), "aop")]
+	if g.multi {
+		// different operations on one location do not commute across invocations
+		if g.atomOp == nil {
+			g.atomOp = map[int]string{}
+		}
+		if prev, ok := g.atomOp[ci]; ok {
+			op = prev
+		} else {
+			g.atomOp[ci] = op
+		}
+	}
 	g.class("atomic:" + op)
 	switch op {
 	case "atomicStore":
@@ -435,6 +464,12 @@ func (g *gen) atomicStmt() []Stmt {
 		g.noMustUse = g.f.off("must_use.call-arg")
 	}
 	call := &Builtin{Name: op, Args: []Expr{ptr, g.expr(Scalar(k), 2)}, T: Scalar(k)}
+	if op == "atomicSub" && k == I32 && g.f.off("atomic.sub-negated-arg") {
+		// (known finding C05-16: "-" + operand text gives "--7" / "--(x)")
+		if u, neg := call.Args[1].(*Unary); (neg && u.Op == "-") || foldable(call.Args[1]) {
+			call.Args[1] = g.runtimeOf(Scalar(k))
+		}
+	}
 	g.noMustUse = false
 	if keep {
 		v := &Var{Name: g.name("ar"), Kind: VLet, T: Scalar(k), Init: call}
@@ -556,6 +591,9 @@ func GenExec(t *rapid.T, f Features) *ExecCase {
 			case 3:
 				if f.Matrices && f.Floats {
 					mt = Mat(2+g.intn(3, "umc"), 2+g.intn(3, "umr"), F32)
+					if mt.R == 2 && f.off("uniform.matCx2") {
+						mt = Mat(mt.N, 3, F32)
+					}
 				} else {
 					mt = Vec(4, U32)
 				}
@@ -628,6 +666,10 @@ func GenExec(t *rapid.T, f Features) *ExecCase {
 				}
 			}
 		}
+		if ct.K != TScalar && f.off("module-const.composite") {
+			// finding C01-8: composite module constants used as a whole are emitted as OpConstantNull
+			ct = Scalar(g.numKind())
+		}
 		cv := &Var{Name: g.name("C"), Kind: VConst, T: ct}
 		if f.off("module-const.expr") {
 			cv.Init = g.constOf(ct)
@@ -646,8 +688,15 @@ func GenExec(t *rapid.T, f Features) *ExecCase {
 	// privates
 	for i, n := 0, g.privCount(); i < n; i++ {
 		pt := g.valueType(1)
+		// Known finding (tag private.array, HLSL): a private variable of array
+		// type is declared "static T[N] name", which is not an HLSL declarator.
+		for tries := 0; pt.K == TArray && f.off("private.array"); tries++ {
+			if pt = g.valueType(1); tries > 8 {
+				pt = TI32
+			}
+		}
 		pv := &Var{Name: g.name("pv"), Kind: VPrivate, T: pt}
-		if (g.chance(50, "privinit") || f.off("var.no-init")) && !(pt.ContainsStruct() && f.off("private.init.struct")) {
+		if (g.chance(50, "privinit") || f.off("var.no-init")) && !(pt.ContainsStruct() && f.off("private.init.struct")) && !(pt.K == TVec && pt.S == Bool && f.off("private-init.bool-splat")) {
 			g.noNeg = f.off("private-init.unary")
 			pv.Init = g.constOf(pt)
 			g.noNeg = false
@@ -739,6 +788,12 @@ func GenExec(t *rapid.T, f Features) *ExecCase {
 	}
 	g.pop()
 	main.Body = body
+	if f.off("switch.break-all-terminated") {
+		fixTerminatedSwitches(main.Body, true)
+		for _, hf := range g.funcs {
+			fixTerminatedSwitches(hf.Body, hf.Ret == nil)
+		}
+	}
 	g.mod.Decls = append(g.mod.Decls, main)
 	// forward references: sometimes move the entry point / helpers to the front
 	if g.chance(25, "fwd") && !f.off("forward-reference") && !(g.anyBitcastOnlyRefs() && f.off("forward-reference.bitcast")) {
